@@ -208,11 +208,17 @@ EDGE_LATS = ['-0', '1/4294967296', '1/8589934592', '3/8589934592', '4294967295/4
 EDGE_LATS_RT = ['-0', '1/4294967296', '4294967295/4294967296', '4294967297/4294967296', '1048576']
 
 
+ADDR_KINDS = ['fresh', 'global', 'server', 'previous', 'mixed', 'mixed']
+
+
 def spice(rng, p, rt=False):
     """Bug-class review: (1) integral numbers as Python ints, -0.0; (4)(5) the same send repeated at one instant (equal
     content, many bundles at the same instant); (5) latencies at timetag-unit edges; (3) several sends in a row from the main
     thread in RT.  Applied to every generated program; the model is untouched (same values)."""
     p['ints'] = rng.random() < 0.4
+    # NRT: every case is a new life of the session (main.reset()); send through address objects created before the reset
+    # (a module-level NetAddr, Server.default.addr, the previous life's address), after it, or alternating
+    p['addr'] = rng.choice(ADDR_KINDS)
     for b in p['bodies']:
         sends = [i for i, a in enumerate(b) if a[0] in ('S', 'M', 'B')]
         if sends and rng.random() < 0.3:
@@ -997,6 +1003,7 @@ def gen_heap_prog(rng):
         main.insert(rng.randint(0, len(main)), ['P', j, rng.choice(['S', 'A', 'S'])])
     p = {'tempos': [], 'bodies': bodies, 'main': [a for a in main if a[0] != 'Y'], 'tail': rng.choice(['0', '1/4'])}
     p['ints'] = rng.random() < 0.3
+    p['addr'] = rng.choice(ADDR_KINDS)
     return p
 
 
@@ -1024,7 +1031,7 @@ def gen_close_prog(rng):
     main = [['P', len(bodies) - 1, cc]] + [['P', j, 'S'] for j in range(len(helpers))]
     for _ in range(rng.randint(0, 2)):
         main.insert(rng.randint(0, len(main)), ['S', rng.choice(['0', '1', '3', '6', None]), 90 + len(main)])
-    return {'tempos': [t0], 'bodies': bodies, 'main': main, 'tail': '0', 'ints': rng.random() < 0.3,
+    return {'tempos': [t0], 'bodies': bodies, 'main': main, 'tail': '0', 'ints': rng.random() < 0.3, 'addr': rng.choice(ADDR_KINDS),
             'close': {'body': len(bodies) - 1, 'tail': rng.choice(['0', '1/4', '1/2', '4', '-1/4', '-0', '1/8', '1']),
                       'how': rng.choice(['finish', 'process'])}}
 
